@@ -179,8 +179,17 @@ def gen_stream(r):
                 recs.append([nm("other"), [[ot, "x", r.choice(STREAM_VALUES[ot])], ["varint", "idx", idx]]])
             idx += 1
         sources.append(recs)
-    src = f"r.x {op} {const}" if pos == "L" else f"{const} {op} r.x"
-    return {"kind": "stream", "engine": engine, "op": op, "pos": pos, "src": src, "via": via, "sources": sources}
+    cmp_src = f"r.x {op} {const}" if pos == "L" else f"{const} {op} r.x"
+    # the comparison inside a boolean context: a record lacking the field makes the COMPARISON false, which may make
+    # the selector true (`not (...)`, `... or name(r) == ...`) - such records have to come out
+    ctx = r.weighted([(5, "bare"), (2, "not"), (2, "or_name"), (1, "and_has")])
+    if op in ("in", "not in"):
+        ctx = "bare"      # the recorded compiled-engine findings on membership would surface inverted under `not`
+    lacks_name = nm("lacks")
+    src = {"bare": cmp_src, "not": f"not ({cmp_src})", "or_name": f"({cmp_src}) or name(r) == '{lacks_name}'",
+           "and_has": f"has_field(r, 'x') and ({cmp_src})"}[ctx]
+    return {"kind": "stream", "engine": engine, "op": op, "pos": pos, "src": src, "cmp": cmp_src, "ctx": ctx,
+            "lacks_name": lacks_name, "via": via, "sources": sources}
 
 
 HELPER_PRESENT = ["s", "t", "u"]
@@ -225,15 +234,24 @@ def _selector(engine, src):
     return Selector(src) if engine == "interpreted" else CompiledSelector(src)
 
 
-def reference_keep(src, rec):
-    """The property's right-hand side for one record: has the field and plain Python says the condition holds.
-    Evaluated by CPython over a namespace in which `r` is the plain record (no sentinel anywhere)."""
+def reference_keep(src, rec, ctx="bare", lacks_name=None):
+    """The property's right-hand side for one record: the COMPARISON holds iff the record has the field and plain
+    Python says so (evaluated by CPython over a namespace in which `r` is the plain record, no sentinel anywhere);
+    the selector's value is the boolean context applied to that."""
     if not hasattr(rec, "x"):
-        return False
-    try:
-        return bool(eval(src, {"__builtins__": {}}, {"r": rec}))
-    except Exception:
-        return None  # the condition itself is ill-typed on this record's value: no expectation
+        c = False
+    else:
+        try:
+            c = bool(eval(src, {"__builtins__": {}}, {"r": rec}))
+        except Exception:
+            return None  # the condition itself is ill-typed on this record's value: no expectation
+    if ctx == "not":
+        return not c
+    if ctx == "or_name":
+        return c or rec._desc.name == lacks_name
+    if ctx == "and_has":
+        return ("x" in rec._desc.fields) and c
+    return c
 
 
 def run_real(case):
@@ -264,7 +282,7 @@ def run_real(case):
         w = RecordStreamWriter(buf)
         for name, fields in recs:
             rec = build_record(name, fields)
-            keep = reference_keep(case["src"], rec)
+            keep = reference_keep(case.get("cmp", case["src"]), rec, case.get("ctx", "bare"), case.get("lacks_name"))
             if keep is None:
                 # the condition is ill-typed on the value this record holds (plain Python raises): not C08's subject,
                 # the record is left out of the stream
